@@ -20,6 +20,8 @@
 #include "simulate/8008.h"
 #include "simulate/lc3.h"
 #include "simulate/6502.h"
+#include "simulate/tms9900.h"
+#include "simulate/ebpf.h"
 #undef private
 #undef protected
 
@@ -167,6 +169,36 @@ static std::string simx_6502(const SimxKV &kv, Memory *memory, int &ret)
   return o.s;
 }
 
+static std::string simx_tms9900(const SimxKV &kv, Memory *memory, int &ret)
+{
+  SimulateTms9900 *sim = new SimulateTms9900(memory);
+  simx_common_in(sim, kv);
+  sim->pc = simx_u(kv, "pc"); sim->wp = simx_u(kv, "wp"); sim->st = simx_u(kv, "st");
+  ret = simx_run(sim);
+  SimxOut o;
+  o.add("pc", sim->pc); o.add("wp", sim->wp); o.add("st", sim->st);
+  simx_common_out(sim, kv, o);
+  delete sim;
+  return o.s;
+}
+
+static std::string simx_ebpf(const SimxKV &kv, Memory *memory, int &ret)
+{
+  SimulateEbpf *sim = new SimulateEbpf(memory);
+  simx_common_in(sim, kv);
+  sim->pc = simx_u(kv, "pc");
+  for (int n = 0; n < 16; n++) { sim->reg[n] = (int64_t)simx_el(kv, "reg", n, 8); }
+  ret = simx_run(sim);
+  SimxOut o;
+  o.add("pc", sim->pc);
+  simx_common_out(sim, kv, o);
+  uint32_t lo[16];
+  for (int n = 0; n < 16; n++) { lo[n] = (uint32_t)sim->reg[n]; }
+  o.arr("reg", lo, 16, 8);
+  delete sim;
+  return o.s;
+}
+
 static std::string simx_body(const std::vector<std::string> &args, const SimxKV &kv, CpuList *cpu);
 
 static std::string cmd_simx(const std::vector<std::string> &args)
@@ -213,6 +245,8 @@ static std::string simx_body(const std::vector<std::string> &args, const SimxKV 
   else if (args[0] == "8008") { st = simx_8008(kv, memory, ret); }
   else if (args[0] == "lc3") { st = simx_lc3(kv, memory, ret); }
   else if (args[0] == "6502") { st = simx_6502(kv, memory, ret); }
+  else if (args[0] == "tms9900") { st = simx_tms9900(kv, memory, ret); }
+  else if (args[0] == "ebpf") { st = simx_ebpf(kv, memory, ret); }
   else { alarm(0); delete memory; return "not-modelled"; }
   alarm(0);
   char buf[32];
